@@ -327,7 +327,7 @@ func writeReplay(E *Engine, cfg *PropConfig, o *Obl, dir string) (string, bool) 
 		fmt.Fprintf(&sb, "\ncounterexample (solver model, parameters and havocked values):\n%s\n", modelSummary(o.Model, 200))
 	}
 	ok := false
-	if o.Model != "" && o.gen != nil {
+	if o.gen != nil {
 		gopath, replayed, log := tryReplay(E, cfg, o, dir)
 		if gopath == "" && log != "" {
 			fmt.Fprintf(&sb, "\nreplay on the real code not attempted: %s\n", log)
